@@ -74,6 +74,42 @@ fn straight_line_stream(sigs: &[Sig], script: &[Step], seed: u64, bounds: &[i64]
     v
 }
 
+/// Rule (iii) on a draw log alone: after every reset the draws repeat, for the same bounds, the
+/// values drawn from the start of the run.
+fn reset_replays(draws: &[DrawEvent]) -> Option<String> {
+    let mut stream: Vec<(i64, i64)> = vec![];
+    let mut j = 0usize;
+    let mut diverged = false;
+    let mut resets = 0;
+    for d in draws {
+        match d {
+            DrawEvent::Reset => {
+                j = 0;
+                diverged = false;
+                resets += 1;
+            }
+            DrawEvent::Draw { bound, value, .. } => {
+                if !(0 <= *value && value < bound) {
+                    return Some(format!("random({bound}) drew {value}"));
+                }
+                if !diverged {
+                    if j < stream.len() {
+                        if stream[j].0 != *bound {
+                            diverged = true;
+                        } else if stream[j].1 != *value {
+                            return Some(format!("replay: draw {j} after reset number {resets} is {value} but draw {j} from the start of the run was {} (bound {bound})", stream[j].1));
+                        }
+                    } else {
+                        stream.push((*bound, *value));
+                    }
+                }
+                j += 1;
+            }
+        }
+    }
+    None
+}
+
 fn bounds() -> Vec<(String, Expr)> {
     vec![
         ("2".into(), lit(2)),
@@ -280,6 +316,22 @@ pub fn run(tier: Tier, seed: u64) -> i32 {
                             continue;
                         }
                     }
+                    // (vii) the production path: the seed is the subject's own (from the OS); range and
+                    // replay after resetRandom hold all the same
+                    if si == 2 {
+                        let mut o3 = opts.clone();
+                        o3.no_seed_override = true;
+                        let obs3 = match &tc {
+                            Ok(tc) => run_loaded(tc, &sigs, true, &script, &o3),
+                            Err(i) => not_loaded(i),
+                        };
+                        st.witness("run_with_the_subjects_own_seed");
+                        if let Some(m) = reset_replays(&obs3.draws) {
+                            let summary = format!("seed left to the subject (production path)\nprogram:\n{text}draw log: {:?}\n{m}", obs3.draws);
+                            st.violation("resetRandom does not replay (own seed)", order, summary, || json!({"kind": "none", "text": text, "note": "the run used a seed from the OS and cannot be repeated value by value; run the program with resetRandom and compare the draws before and after it", "expected": ["after resetRandom the draws repeat those from the start of the run"], "observed": [m.clone()]}));
+                            continue;
+                        }
+                    }
                     // (iv) same seed, same log
                     if si == 0 {
                         let obs2 = match &tc {
@@ -360,7 +412,7 @@ pub fn run(tier: Tier, seed: u64) -> i32 {
             "bounds and seeds are fixed boundary sets (2, 3, 10, 2^31, 2^32+1, 2^62, a device-computed bound; 7 fixed seeds + 4 derived from VERIF_SEED); DESIGN section 10".into(),
             "runs longer than 64 rows (while(random(3)<2) under an unlucky seed) are out of scope".into(),
         ],
-        required_witnesses: vec!["hundreds_of_draws_and_repeated_resets", "run_with_draws", "reset_between_draws", "draw_replayed_after_reset", "same_seed_rerun", "stream_compared_with_a_straight_line_program", "size_hint_and_vars_called_between_the_rows", "caller_carries_on_after_an_empty_range_error"],
+        required_witnesses: vec!["hundreds_of_draws_and_repeated_resets", "run_with_draws", "reset_between_draws", "draw_replayed_after_reset", "same_seed_rerun", "stream_compared_with_a_straight_line_program", "size_hint_and_vars_called_between_the_rows", "caller_carries_on_after_an_empty_range_error", "run_with_the_subjects_own_seed"],
         exhaustive_note: "all programs x bounds x seeds within the bounds".into(),
         e1: false,
     };
